@@ -119,9 +119,9 @@ def _npint(v):
 COORD_NAMES = ("coordinates", "data_coordinates")
 
 
-def _stacked(name, v):
+def _stacked(name, v, min_ndim=1):
     """float64 coordinate arrays of one shape given as a tuple: the same values as one fresh stacked array (what longitude_continuity hands back and users pipe on)"""
-    if name in COORD_NAMES and type(v) in (tuple, list) and len(v) >= 2 and all(type(a) is np.ndarray and a.dtype == np.float64 for a in v) and len({a.shape for a in v}) == 1:
+    if name in COORD_NAMES and type(v) in (tuple, list) and len(v) >= 2 and all(type(a) is np.ndarray and a.dtype == np.float64 for a in v) and len({a.shape for a in v}) == 1 and v[0].ndim >= min_ndim:
         return np.array(v)
     return v
 
@@ -158,7 +158,8 @@ def _positional(order, table, args, kwargs, fill):
 class _Proxy:
     """Callable stand-in for a public verde function or class (attribute access is forwarded)."""
 
-    def __init__(self, target, table, equivalent=None, order=None):
+    def __init__(self, target, table, equivalent=None, order=None, stack_min_ndim=1):
+        self.__dict__["_stack_min_ndim"] = stack_min_ndim
         self.__dict__["_target"] = target
         self.__dict__["_table"] = table
         self.__dict__["_equivalent"] = equivalent or {}
@@ -172,9 +173,9 @@ class _Proxy:
         if NPINT:
             kwargs = {k: _npint(v) for k, v in kwargs.items()}
         if STACKED:
-            kwargs = {k: _stacked(k, v) for k, v in kwargs.items()}
+            kwargs = {k: _stacked(k, v, self._stack_min_ndim) for k, v in kwargs.items()}
             if self._order is not None:
-                args = tuple(_stacked(name, v) for name, v in zip(self._order, args)) + tuple(args[len(self._order):])
+                args = tuple(_stacked(name, v, self._stack_min_ndim) for name, v in zip(self._order, args)) + tuple(args[len(self._order):])
         if SEQFORM:
             kwargs = {k: _seqform(k, v) for k, v in kwargs.items()}
             if self._order is not None:
@@ -199,7 +200,8 @@ def install(verde):
         target = getattr(holder, parts[-1])
         if isinstance(target, _Proxy):
             continue
-        proxy = _Proxy(target, table, EQUIVALENT.get(path), REQUIRED[path] + list(table) if path in REQUIRED else None)
+        # (two equally long 1-D axis vectors are not "the coordinates of the points" for make_xarray_grid: only its 2-D meshgrid form is stacked)
+        proxy = _Proxy(target, table, EQUIVALENT.get(path), REQUIRED[path] + list(table) if path in REQUIRED else None, stack_min_ndim=2 if path == "make_xarray_grid" else 1)
         setattr(holder, parts[-1], proxy)
 
 
